@@ -9,7 +9,7 @@ import (
 
 func init() {
 	register("C08", "other", "T7 Pairing (write-through caches), provenance (bootstrap reads persisted state), T2 Dominates (branch info persisted with the vectors), linear normaliser (frame bookkeeping)",
-		"Decides the structure that makes a restart at an event boundary invisible: the consensus store's cached last-decided state and epoch state are write-through — every setter stores the same value in the cache and in the table, the getters fill the cache only from the table, nobody else writes those cache fields — so what a fresh instance reads is what the running one saw; Bootstrap builds the election from the persisted validators, the persisted last decided frame + 1, the index's forkless-cause function and the stored roots, and wires the epoch database callback to reset the vector index over the persisted index table with the stored validators; the vector engine persists its branch info before flushing the vector data, and the index is flushed only after the consensus step (so no boundary has consensus state ahead of the index); frame bookkeeping as in C02; every function that owns the election (creates or resets it) and persists a new epoch state, directly or in a callee, (re)sets the election with exactly those validators on every successful path after the write, and never resets it with validators that were not persisted first — so the in-memory election equals the one Bootstrap would rebuild from the store at any boundary. Equality of the later behaviour is not decided.",
+		"Decides the structure that makes a restart at an event boundary invisible: the consensus store's cached last-decided state and epoch state are write-through — every setter stores the same value in the cache and in the table, the getters fill the cache only from the table, nobody else writes those cache fields — so what a fresh instance reads is what the running one saw; Bootstrap builds the election from the persisted validators, the persisted last decided frame + 1, the index's forkless-cause function and the stored roots, and wires the epoch database callback to reset the vector index over the persisted index table with the stored validators; the vector engine persists its branch info before flushing the vector data, and the index is flushed only after the consensus step (so no boundary has consensus state ahead of the index); frame bookkeeping (on every path of onFrameDecided the frame that reaches the election Reset — directly or through locals assigned per branch — is one above the LastDecidedFrame assigned on that path, every successful return has passed a Reset and the persisting setter; Bootstrap creates the election at last-decided+1); every function that owns the election (creates or resets it) and persists a new epoch state, directly or in a callee, (re)sets the election with exactly those validators on every successful path after the write, and never resets it with validators that were not persisted first — so the in-memory election equals the one Bootstrap would rebuild from the store at any boundary. Equality of the later behaviour is not decided.",
 		[]string{"main and epoch databases are correct stores (C22/C23)", "the application restarts over the databases as they were at an event boundary"},
 		runC08)
 }
@@ -203,7 +203,7 @@ func runC08(c *core.Ctx) {
 		c.Check(ok, "index data becomes durable only after the consensus step", "T2+T4", proc.Pos(), "dagIndexer.Flush() follows a successful Lachesis.Process", "the index can be flushed before the consensus state of the event is written")
 	})
 
-	c.Clause("C08.frame", func() { frameBookkeeping(c) })
+	c.Clause("C08.frame", func() { c08FrameBookkeeping(c) })
 
 	c08Election(c)
 }
